@@ -10,7 +10,7 @@ for l in open(mx):
     if len(p) >= 3: rows[p[0]][p[1]] = p[2]
 kept = collections.Counter(); own = collections.Counter(); others = collections.defaultdict(collections.Counter)
 only_own = 0; inconcl = 0; total = 0; imported = 0
-for d in sorted(glob.glob(os.path.join(V, "seeded/C*-[a-z]"))):
+for d in sorted(glob.glob(os.path.join(V, "seeded/C*-[a-z]*"))):
     sid = os.path.basename(d); m = json.load(open(os.path.join(d, "meta.json"))); imported += 1
     ok = not m.get("excluded") and m.get("applies") and m.get("compiles") and m.get("existing_suite_passes_with_change") and m.get("demo_fails_with_change") and m.get("demo_passes_without_change")
     if not ok or sid not in rows or "*" in rows[sid]: continue
